@@ -950,6 +950,82 @@ func (f *Frame) loopEnv(h *ssa.BasicBlock, st *State, phiOverride map[*ssa.Phi]V
 			}
 		}
 	}
+	// The two spellings of a loop over a slice are interchangeable for the invariants:
+	//   for i := 0; i < len(X); i++   -- at the head, i iterations are complete: rangeindex == i-1, ranged == X
+	//   for i, v := range X           -- at the head, the key variable of the coming iteration is rangeindex+1
+	if _, has := env.vars["rangeindex"]; !has {
+		for _, ins := range h.Instrs {
+			phi, ok := ins.(*ssa.Phi)
+			if !ok {
+				break
+			}
+			name := strings.TrimPrefix(phi.Comment, "#")
+			pv, bound := env.vars[name]
+			if name == "" || !bound || pv.Sort != "Int" {
+				continue
+			}
+			for _, hi := range h.Instrs {
+				cmp, ok := hi.(*ssa.BinOp)
+				if !ok || cmp.Op != token.LSS || cmp.X != ssa.Value(phi) {
+					continue
+				}
+				if lc, ok := cmp.Y.(*ssa.Call); ok {
+					if bi, ok := lc.Call.Value.(*ssa.Builtin); ok && bi.Name() == "len" && len(lc.Call.Args) == 1 {
+						if _, known := f.vals[lc.Call.Args[0]]; !known {
+							// `i < len(msg.List)`: the slice is re-read in the header; evaluate those (pure) reads now
+							f.peekHeader(h, cmp, st)
+						}
+						if xv, ok := f.vals[lc.Call.Args[0]]; ok {
+							if _, isSlice := g.sorts.sliceEl[xv.Sort]; isSlice {
+								env.vars["rangeindex"] = Val{Sort: "Int", Term: fmt.Sprintf("(- %s 1)", pv.Term)}
+								env.vars["ranged"] = xv
+							}
+						}
+					}
+				}
+			}
+		}
+	} else {
+		for _, ins := range h.Instrs {
+			phi, ok := ins.(*ssa.Phi)
+			if !ok {
+				break
+			}
+			if strings.TrimPrefix(phi.Comment, "#") != "rangeindex" {
+				continue
+			}
+			pv := env.vars["rangeindex"]
+			for b := range f.loopBlk[h] {
+				for _, bi := range b.Instrs {
+					dr, ok := bi.(*ssa.DebugRef)
+					if !ok || dr.IsAddr {
+						continue
+					}
+					id, isId := dr.Expr.(*ast.Ident)
+					inc, isInc := dr.X.(*ssa.BinOp)
+					if isId && isInc && inc.Op == token.ADD && inc.X == ssa.Value(phi) {
+						if _, taken := env.vars[id.Name]; !taken {
+							if _, isCell := env.cellVars[id.Name]; !isCell {
+								env.vars[id.Name] = Val{Sort: "Int", Term: fmt.Sprintf("(+ %s 1)", pv.Term)}
+							}
+						}
+					}
+				}
+			}
+		}
+	}
+	if f.spec != nil && f.spec.adopted {
+		for old, param := range f.spec.argAlias {
+			if env.resolves(old) {
+				continue
+			}
+			if c, ok := env.cellVars[param]; ok {
+				env.cellVars[old] = c
+			} else if v, ok := env.vars[param]; ok {
+				env.vars[old] = v
+			}
+		}
+	}
 	env.loopEntry = f.loopEntry[h]
 	// identifiers of the invariants that no longer name a local (renamed variable): bound once per loop
 	if spec := f.loopSpec(h); spec != nil && f.spec != nil {
@@ -981,6 +1057,32 @@ func (f *Frame) loopEnv(h *ssa.BasicBlock, st *State, phiOverride map[*ssa.Phi]V
 	return env
 }
 
+// peekHeader evaluates the address computations and loads of a loop header that precede its condition, on a copy of
+// the header state (they are pure; the regular pass evaluates them again).
+func (f *Frame) peekHeader(h *ssa.BasicBlock, until ssa.Instruction, st *State) {
+	defer func() {
+		if rec := recover(); rec != nil {
+			if _, isEE := rec.(engineError); !isEE {
+				panic(rec)
+			}
+		}
+	}()
+	tmp := st.clone()
+	for _, ins := range h.Instrs {
+		if ins == until {
+			return
+		}
+		switch x := ins.(type) {
+		case *ssa.FieldAddr, *ssa.Field:
+			f.instr(h, ins, tmp)
+		case *ssa.UnOp:
+			if x.Op == token.MUL {
+				f.instr(h, ins, tmp)
+			}
+		}
+	}
+}
+
 func (f *Frame) bindParams(env *Env) {
 	for _, p := range f.fn.Params {
 		env.vars[p.Name()] = f.vals[p]
@@ -997,7 +1099,7 @@ func (f *Frame) bindParams(env *Env) {
 		}
 	}
 	// ghost variables of the contract (declared once, at function entry)
-	if f.spec != nil && f.depth == 0 {
+	if f.spec != nil && (f.depth == 0 || f.spec.adopted) {
 		for _, v := range f.spec.Vars {
 			env.vars[v.Name] = Val{Sort: v.Sort, Term: "ghost_" + v.Name}
 		}
